@@ -10,7 +10,9 @@ package main
 // test function returns, because testing.Main ends with os.Exit).
 
 import (
+	"context"
 	"fmt"
+	"log/slog"
 	"math/big"
 	"net/netip"
 	"os"
@@ -231,6 +233,7 @@ type ctHist struct {
 	unsafe0  int
 	to0      ctTimeouts
 	v0       uint16
+	cacheP   int64 // > 0: every Drop gets the cache of a real firewall.ConntrackCacheTicker of this period; 0: nil cache
 	evs      []ctEv
 }
 
@@ -275,6 +278,17 @@ func ctRunHistIn(c *hx.Ctx, h *ctHist) (res ctResult) {
 		w.AddPeer(p.name, ctPrefixes(p.nets), ctPrefixes(p.unsafe), p.groups)
 	}
 	w.SetRulesVersion(h.v0)
+	// the routine-local conntrack cache: the real ticker, started now (instant 0 of the history); its goroutine lives
+	// in this synctest bubble, so its ticks follow the virtual clock; it is stopped before the bubble ends
+	var ticker *firewall.ConntrackCacheTicker
+	if h.cacheP > 0 {
+		ctx, cancel := context.WithCancel(context.Background())
+		ticker = firewall.NewConntrackCacheTicker(ctx, slog.New(slog.DiscardHandler), time.Duration(h.cacheP))
+		defer func() {
+			cancel()
+			synctest.Wait()
+		}()
+	}
 
 	// a rule set is identified by the text of its rules and the unsafe networks of our certificate
 	type rsKey struct {
@@ -326,7 +340,7 @@ func ctRunHistIn(c *hx.Ctx, h *ctHist) (res ctResult) {
 				rows[k] = row
 				rowOrder = append(rowOrder, k)
 			}
-			v, pan := w.Drop(fp, e.incoming, e.peer, nil)
+			v, pan := w.Drop(fp, e.incoming, e.peer, ticker.Get()) // Get() of a nil ticker is a nil cache
 			if pan != "" {
 				res.fail = "Drop panicked: " + pan
 				return
@@ -350,6 +364,7 @@ func ctRunHistIn(c *hx.Ctx, h *ctHist) (res ctResult) {
 			descEv = append(descEv, []any{"pkt", e.peer, e.incoming, fp.LocalAddr.String(), fp.RemoteAddr.String(), fp.LocalPort, fp.RemotePort, fp.Protocol, fp.Fragment, v})
 		case 1:
 			time.Sleep(time.Duration(e.d))
+			synctest.Wait() // a tick due at this very instant has been counted before the next packet
 			evLits = append(evLits, hx.App("CS", hx.Z(e.d)))
 			descEv = append(descEv, []any{"sleep", e.d})
 		case 2:
@@ -378,9 +393,13 @@ func ctRunHistIn(c *hx.Ctx, h *ctHist) (res ctResult) {
 		r := rows[k]
 		rowLits = append(rowLits, hx.App("Rw", hx.N(uint64(r.rs)), hx.N(uint64(r.peer)), ctTupleLit(r.tup), hx.Bool(r.ok), hx.Bool(r.ai), hx.Bool(r.ao)))
 	}
-	res.lit = hx.App("CHist", hx.N(uint64(rs0)), hx.N(uint64(h.v0)), hx.Z(h.to0.tcp), hx.Z(h.to0.udp), hx.Z(h.to0.def),
-		hx.List(rowLits), hx.List(evLits), hx.NList(obs))
-	res.desc = map[string]any{"kind": h.kind, "v0": h.v0, "timeouts": []int64{h.to0.tcp, h.to0.udp, h.to0.def},
+	ctor := []string{"CHist"}
+	if h.cacheP > 0 {
+		ctor = []string{"CHistC", hx.Z(h.cacheP)}
+	}
+	res.lit = hx.App(ctor[0], append(ctor[1:], hx.N(uint64(rs0)), hx.N(uint64(h.v0)), hx.Z(h.to0.tcp), hx.Z(h.to0.udp), hx.Z(h.to0.def),
+		hx.List(rowLits), hx.List(evLits), hx.NList(obs))...)
+	res.desc = map[string]any{"kind": h.kind, "cache_period": h.cacheP, "v0": h.v0, "timeouts": []int64{h.to0.tcp, h.to0.udp, h.to0.def},
 		"rulesets": fmt.Sprint(h.rulesets), "rules0": h.rules0, "unsafe0": h.unsafe0, "events": descEv, "tracked_at_end": w.Tracked()}
 	res.nontriv = res.honoured > 0 && (res.expired > 0 || res.installed > 0)
 	return
@@ -408,11 +427,14 @@ func (t ctTimeouts) of(proto uint8) int64 {
 func (t ctTimeouts) tick() int64 { return min(t.tcp, t.udp, t.def) }
 
 // random timeouts with max/min <= 40 (the wheel has max/min + 2 slots)
-func ctRandTimeouts(c *hx.Ctx) ctTimeouts {
-	if c.Chance(0.4) {
+func ctRandTimeouts(c *hx.Ctx, small bool) ctTimeouts {
+	if !small && c.Chance(0.4) {
 		return ctDefaultTo
 	}
 	base := []int64{ctSec, 7 * ctSec, 30 * ctSec, ctMin, 90*ctSec + 1, 3 * ctMin}[c.Intn(6)]
+	if small { // around the 1 s cache period
+		base = []int64{ctSec / 4, ctSec / 2, ctSec, 1500 * ctSec / 1000}[c.Intn(4)]
+	}
 	m := func() int64 { return base * int64(1+c.Intn(12)) / int64(1+c.Intn(3)) }
 	t := ctTimeouts{m(), m(), m()}
 	for _, p := range []*int64{&t.tcp, &t.udp, &t.def} {
@@ -504,9 +526,13 @@ func ctGap(c *hx.Ctx, T, tick int64) int64 {
 }
 
 func ctRandHist(c *hx.Ctx, reloads bool) *ctHist {
-	h := &ctHist{kind: "random", to0: ctRandTimeouts(c), unsafe0: c.Intn(3)}
+	cached := c.Chance(0.35)
+	h := &ctHist{kind: "random", to0: ctRandTimeouts(c, cached), unsafe0: c.Intn(3)}
 	if c.Chance(0.5) {
 		h.unsafe0 = 0
+	}
+	if cached {
+		h.cacheP = ctSec
 	}
 	nr := 1
 	if reloads {
@@ -559,12 +585,18 @@ func ctRandHist(c *hx.Ctx, reloads bool) *ctHist {
 	}
 	curTo := h.to0
 	churnPort := uint16(20000)
+	if cached {
+		h.kind += "-cache"
+	}
 	n := 12 + c.Intn(40)
 	for i := 0; i < n; i++ {
 		r := c.Intn(100)
 		switch {
 		case r < 55:
 			f := flows[c.Intn(len(flows))]
+			if cached && c.Chance(0.5) { // several packets of one flow inside one cache period
+				f = flows[0]
+			}
 			e := ctEv{kind: 0, flow: f, peer: f.peer, incoming: c.Chance(0.5)}
 			if c.Chance(0.07) {
 				e.peer = c.Intn(len(ctPeers))
@@ -572,7 +604,11 @@ func ctRandHist(c *hx.Ctx, reloads bool) *ctHist {
 			h.evs = append(h.evs, e)
 		case r < 80:
 			f := flows[c.Intn(len(flows))]
-			h.evs = append(h.evs, ctEv{kind: 1, d: ctGap(c, curTo.of(f.proto), curTo.tick())})
+			d := ctGap(c, curTo.of(f.proto), curTo.tick())
+			if cached && c.Chance(0.5) { // around the ticks of the cache ticker
+				d = []int64{ctSec, ctSec - 1, ctSec / 2, ctSec / 3, ctSec / 10, ctSec + 1}[c.Intn(6)]
+			}
+			h.evs = append(h.evs, ctEv{kind: 1, d: d})
 		case r < 90 || !reloads:
 			// churn: a packet of a flow never seen before
 			f := ctRandFlow(c)
@@ -587,7 +623,7 @@ func ctRandHist(c *hx.Ctx, reloads bool) *ctHist {
 				e.unsafe = c.Intn(3)
 			}
 			if c.Chance(0.3) {
-				e.to = ctRandTimeouts(c)
+				e.to = ctRandTimeouts(c, cached)
 			}
 			if c.Chance(0.15) { // a reload that changes nothing at all
 				if len(h.evs) > 0 {
@@ -667,6 +703,72 @@ func ctSweepConntrack() []*ctHist {
 	return hs
 }
 
+// cache-enabled sweep (1 s period): an expired, not yet reaped flow asked twice inside one tick; a stale flow riding on
+// the cache until the tick; with and without churn; reload variants when reloads is set
+func ctSweepCache(reloads bool) []*ctHist {
+	var hs []*ctHist
+	f := ctFlow{peer: 0, local: netip.MustParseAddr("10.0.0.1"), remote: netip.MustParseAddr("10.0.0.2"), lport: 80, rport: 40000, proto: firewall.ProtoTCP}
+	g := ctFlow{peer: 1, local: netip.MustParseAddr("10.0.0.1"), remote: netip.MustParseAddr("10.0.0.3"), lport: 53, rport: 40001, proto: firewall.ProtoUDP}
+	pkt := func(f ctFlow, in bool) ctEv { return ctEv{kind: 0, flow: f, peer: f.peer, incoming: in} }
+	sl := func(d int64) ctEv { return ctEv{kind: 1, d: d} }
+	ms := ctSec / 1000
+	rulesets := []ctRules{{in: []int{0}}, {in: []int{11}}, {in: []int{0, 0, 1}}}
+	for ti, to := range []ctTimeouts{{2500 * ms, 1500 * ms, 3000 * ms}, {300 * ms, 300 * ms, 300 * ms}, {1000 * ms, 1000 * ms, 2000 * ms}} {
+		T := to.of(f.proto)
+		for churn := 0; churn < 3; churn++ {
+			for warm := 0; warm < 2; warm++ { // warm: the reply was honoured (and cached) before the idle period
+				h := &ctHist{kind: fmt.Sprintf("sweep-cache/expired-twice/t%d/churn%d/warm%d", ti, churn, warm), rulesets: rulesets, to0: to, cacheP: ctSec}
+				h.evs = append(h.evs, pkt(f, true))
+				if warm == 1 {
+					h.evs = append(h.evs, pkt(f, false), pkt(f, false))
+				}
+				h.evs = append(h.evs, sl(T+200*ms))
+				gg := g
+				if churn == 1 {
+					h.evs = append(h.evs, pkt(gg, true))
+				}
+				h.evs = append(h.evs, pkt(f, false))
+				if churn == 2 {
+					h.evs = append(h.evs, pkt(gg, true), pkt(gg, false))
+				}
+				h.evs = append(h.evs, pkt(f, false), pkt(f, false), sl(100*ms), pkt(f, false), sl(ctSec), pkt(f, false), pkt(f, true), pkt(f, false), pkt(f, false))
+				hs = append(hs, h)
+			}
+			// stale within the period: honoured and cached, then idle past the timeout but no tick yet
+			h := &ctHist{kind: fmt.Sprintf("sweep-cache/stale/t%d/churn%d", ti, churn), rulesets: rulesets, to0: to, cacheP: ctSec}
+			h.evs = append(h.evs, sl(ctSec), pkt(f, true), pkt(f, false), sl(T/2), pkt(f, false), sl(T/2+150*ms))
+			if churn > 0 {
+				h.evs = append(h.evs, pkt(g, true))
+			}
+			h.evs = append(h.evs, pkt(f, false), pkt(f, false), sl(ctSec), pkt(f, false), pkt(f, false))
+			if churn == 2 {
+				h.evs = append(h.evs, pkt(g, false))
+			}
+			h.evs = append(h.evs, sl(ctSec-1), pkt(f, false), sl(1), pkt(f, false), pkt(f, true), pkt(f, false), sl(ctSec), pkt(f, false))
+			hs = append(hs, h)
+		}
+	}
+	if reloads {
+		to := ctTimeouts{2500 * ms, 1500 * ms, 3000 * ms}
+		rl := func(r int) ctEv { return ctEv{kind: 2, rules: r, unsafe: 0, to: to} }
+		for _, v0 := range []uint16{0, 65534} {
+			for warm := 0; warm < 2; warm++ {
+				for _, target := range []int{1, 2} { // 1: the flow's direction is no longer allowed; 2: the same rules in other words
+					h := &ctHist{kind: fmt.Sprintf("sweep-cache/reload/r%d/warm%d/v%d", target, warm, v0), rulesets: rulesets, to0: to, v0: v0, cacheP: ctSec}
+					h.evs = append(h.evs, pkt(f, true))
+					if warm == 1 {
+						h.evs = append(h.evs, pkt(f, false))
+					}
+					h.evs = append(h.evs, rl(target), pkt(f, false), pkt(f, false), sl(ctSec), pkt(f, false), pkt(f, false), pkt(g, true), pkt(f, false),
+						rl(0), pkt(f, false), pkt(f, true), pkt(f, false), sl(ctSec), pkt(f, false))
+					hs = append(hs, h)
+				}
+			}
+		}
+	}
+	return hs
+}
+
 func ctSweepReload() []*ctHist {
 	var hs []*ctHist
 	f := ctFlow{peer: 0, local: netip.MustParseAddr("10.0.0.1"), remote: netip.MustParseAddr("10.0.0.2"), lport: 80, rport: 40000, proto: firewall.ProtoTCP}
@@ -733,9 +835,9 @@ func runCTIn(t *testing.T, c *hx.Ctx, reloads bool) {
 	cw := c.NewCaseWriter("From NV Require Import model.Conntrack model.FwReload corr.Conntrack_corr.", "case", "check_case", per)
 	var hs []*ctHist
 	if reloads {
-		hs = ctSweepReload()
+		hs = append(ctSweepReload(), ctSweepCache(true)...)
 	} else {
-		hs = ctSweepConntrack()
+		hs = append(ctSweepConntrack(), ctSweepCache(false)...)
 	}
 	if len(hs) > c.N*2/3 { // keep room for random histories in small runs
 		hs = hs[:c.N*2/3]
